@@ -99,8 +99,10 @@ def dlpoly_table(text):
                 raise FormatError("record %r is %d characters, expected four 15-character fields" % (rec, len(rec)))
             for c in range(4):
                 fld = rec[15 * c:15 * c + 15]
-                if not re.fullmatch(r" [ -]\d\.\d{7}e[+-]\d\d\d?", fld) and not re.fullmatch(r" [ -](inf|nan) *", fld):
-                    raise FormatError("field %r is not ' % 14.7e'" % fld)
+                # seven decimals and a two-digit exponent, or six decimals and a three-digit exponent: 15 characters
+                if not re.fullmatch(r" [ -]\d\.\d{7}e[+-]\d\d", fld) and not re.fullmatch(r" [ -]\d\.\d{6}e[+-]\d\d\d", fld) \
+                        and not re.fullmatch(r" +-?(inf|nan)", fld):
+                    raise FormatError("field %r is not a 15-character ' %% 14.7e' field" % fld)
                 vals.append(_f(fld.strip()))
             i += 1
         blocks.append({"a": a.strip(), "b": b.strip(), "energies": vals[:ngrid], "forces": vals[ngrid:]})
